@@ -94,6 +94,22 @@ def run(ctx):
         cases.append({"src": src, "texts": texts})
         cases.append({"src": fsrc, "texts": texts})
         meta.append(items)
+    # matches that contain multi-byte characters (and bytes that are no character at all): lengths and offsets given to a transform are those of the
+    # match's BYTES, like every offset of the match itself
+    size = "set size to transform return '' + matchLength end"
+    walk = ("set walk to transform set i to 0 set out to '' set rest to match loop if i >= matchLength then break end set out to out + head rest "
+            "set rest to tail rest set i to i + 1 end return out end")
+    half = "set half to transform if matchLength > 3 then return 'long' else return 'short' end end"
+    mb_texts = ["<ab> <h\xc3\xa9llo> <\xe6\x97\xa5\xe6\x9c\xac> <>", "\xe2\x82\xac5 \xc3\xa9", "a\xff\xfe b", "\xf0\x9f\x98\x80 x", "na\xc3\xafve caf\xc3\xa9"]
+    for body in ("at least 1 (not ' ')", "'<' (at least 0 (not '>')) = inner '>'", "any any any", "at least 1 (not in ' ', 'a')"):
+        for its in ([("builtin", "value"), ("str", "="), ("transform", "size"), ("str", "@"), ("builtin", "startOffset"), ("str", "-"), ("builtin", "endOffset")],
+                    [("transform", "walk"), ("str", "|"), ("transform", "half")], [("transform", "size"), ("transform", "size"), ("cap", "inner")]):
+            def show2(it):
+                return genprog.q(it[1]) if it[0] == "str" else it[1]
+            pre = [size, walk, half]
+            cases.append({"src": "\n".join(pre + ["replace all %s with %s" % (body, " ".join(show2(i) for i in its))]), "texts": mb_texts})
+            cases.append({"src": "\n".join(pre + ["find all %s" % body]), "texts": mb_texts})
+            meta.append(its)
     gres, dis, stats = corr_core.run_core(cases, shards=12, spec=False)
     report_core_disagreements(ctx, cases, dis, in_scope=in_scope_core, known=known_core)
     ev = 0
